@@ -28,6 +28,7 @@ BY_NAME = {s.name: s for s in SUBS}
 # / node is looked up by re-encoding the value; zk check_content compares
 # payload bytes).  LDAP keyed lists may be written in any member order.
 SPLIT_CHECKED = {'rules', 'names', 'uid', 'trace', 'zk'}
+CONFIRM_PER_SITE = 300
 
 RULE = ('a case is non-trivial when the value carries something the format '
         'has to escape or default: wildcard ip/port or passthrough (rules), '
@@ -140,8 +141,18 @@ def run(ctx):
             todo = [('collision', p) for p in coll]
             if sub.name in SPLIT_CHECKED:
                 todo += [('split', p) for p in split]
+            per_site = {}
             for kind, (i, j) in todo:
                 a, b = domains[sub.name][i], domains[sub.name][j]
+                # every candidate is attributed to its site (no code is run
+                # for that); the first CONFIRM_PER_SITE of each site, lowest
+                # indexes first, are re-executed and reported
+                skey = (kind, sub.pair_site(kind, a, b))
+                per_site[skey] = per_site.get(skey, 0) + 1
+                if per_site[skey] > CONFIRM_PER_SITE:
+                    confirmed['not_reexecuted'] = \
+                        confirmed.get('not_reexecuted', 0) + 1
+                    continue
                 body = cc.confirm_pair(sub, kind, a, b)
                 if body is None:
                     confirmed['hash_accidents'] += 1
@@ -155,9 +166,11 @@ def run(ctx):
             stats['confirmed'] = confirmed
             c = res.counters
             per_sub[sub.name] = {
-                'states': c.get(sub.name + '.cases', 0),
+                'cases': c.get(sub.name + '.cases', 0),
+                'states': stats['distinct_inputs'],
                 'transitions': c.get(sub.name + '.evals', 0),
-                'nontrivial': c.get(sub.name + '.nontrivial', 0),
+                'nontrivial_cases': c.get(sub.name + '.nontrivial', 0),
+                'nontrivial': stats['distinct_nontrivial_inputs'],
                 'domain_size': len(domains[sub.name]),
                 'exhaustive': c.get(sub.name + '.cases', 0) ==
                 len(domains[sub.name]),
@@ -178,7 +191,9 @@ def run(ctx):
         exhaustive = bool(res.exhaustive and
                           all(p['exhaustive'] for p in per_sub.values()))
         cov = {
-            'states': res.cases,
+            # distinct inputs (by exact value key); every case is one
+            # execution of the real encoder + decoder
+            'states': sum(p['states'] for p in per_sub.values()),
             'transitions': transitions,
             'traces_validated_against_impl': res.cases,
             'evaluations': res.cases,
